@@ -145,6 +145,22 @@ def run(tier: str) -> int:
             else:
                 rep.error(f"TLC failed on Driver: {r.out[-1500:]}")
             return rep.finish()
+        # the unbounded argument: DriverInd.tla (counters) has an inductive invariant that Apalache discharges for every
+        # call length, number of calls / rebuilds and interval; Driver.tla above has just checked that it IS an abstraction
+        # of the machine (C15_AbstractionInv, C15_AbstractionStep)
+        from concurrent.futures import ThreadPoolExecutor
+
+        from tlc import run_apalache
+
+        goals = [("init", ["--init=IndInit", "--inv=IndInv", "--length=0"]), ("step", ["--init=IndInv", "--inv=IndInv", "--length=1"]), ("claims", ["--init=IndInv", "--inv=Claims", "--length=0"])]
+        with ThreadPoolExecutor(3) as ex:
+            outcomes = list(ex.map(lambda g: run_apalache("DriverInd", g[1]), goals))
+        for (gname, _), (ok, violated, text) in zip(goals, outcomes):
+            if violated:
+                rep.violation(f"model:DriverInd:{gname}", f"Apalache: the inductive argument for C15 on counters fails at '{gname}' (DriverInd.tla)", {"apalache": text})
+            elif not ok:
+                rep.error(f"Apalache failed on DriverInd ({gname}): {text[-800:]}")
+        rep.add(apalache_inductive_goals=len(goals))
         cases = [json.loads(l) for l in open(out)]
         if tier == "thorough":
             # liveness under weak fairness: every plan is eventually executed completely (FairSpec, <>Quiescent)
